@@ -90,6 +90,19 @@ fn read_all<S: Rng>(mut s: S, reads: &[u64]) -> Vec<u8> {
     }
     out
 }
+/// The same read sequence through the word-sized entry points of the `Rng` interface: a read of 4 bytes is one `next_u32`,
+/// a read of 8 bytes one `next_u64` (little endian, as rand_core's fill-based defaults define them), anything else `fill_bytes`.
+fn read_all_words<S: Rng>(mut s: S, reads: &[u64]) -> Vec<u8> {
+    let mut out = Vec::new();
+    for r in reads {
+        match *r {
+            4 => out.extend(s.next_u32().to_le_bytes()),
+            8 => out.extend(s.next_u64().to_le_bytes()),
+            n => { let mut b = vec![0u8; n as usize]; s.fill_bytes(&mut b); out.extend(b); }
+        }
+    }
+    out
+}
 
 pub fn xof(args: &[String], lines: impl Iterator<Item = String>) {
     let path = &args[0];
@@ -121,6 +134,7 @@ pub fn xof(args: &[String], lines: impl Iterator<Item = String>) {
             for b in &bref { x.update(b); }
             ev("turboshake", "init+update", s, read_all(x.into_seed_stream(), &reads), 32);
             ev("turboshake", "seed_stream", s, read_all(XofTurboShake128::seed_stream(s, &dref, &bref), &reads), 32);
+            if reads.iter().any(|r| *r == 4 || *r == 8) { ev("turboshake", "seed_stream/words", s, read_all_words(XofTurboShake128::seed_stream(s, &dref, &bref), &reads), 32); }
             let mut x = XofTurboShake128::init(s, &dref);
             for b in &bref { x.update(b); }
             ev("turboshake", "into_seed", s, x.into_seed().as_ref().to_vec(), 32);
@@ -132,6 +146,7 @@ pub fn xof(args: &[String], lines: impl Iterator<Item = String>) {
             for b in &bref { x.update(b); }
             ev("hmac", "init+update", s, read_all(x.into_seed_stream(), &reads), 32);
             ev("hmac", "seed_stream", s, read_all(XofHmacSha256Aes128::seed_stream(s, &dref, &bref), &reads), 32);
+            if reads.iter().any(|r| *r == 4 || *r == 8) { ev("hmac", "seed_stream/words", s, read_all_words(XofHmacSha256Aes128::seed_stream(s, &dref, &bref), &reads), 32); }
             let mut x = XofHmacSha256Aes128::init(s, &dref);
             for b in &bref { x.update(b); }
             ev("hmac", "into_seed", s, x.into_seed().as_ref().to_vec(), 32);
@@ -144,6 +159,7 @@ pub fn xof(args: &[String], lines: impl Iterator<Item = String>) {
             for b in &bref { x.update(b); }
             ev("fixedkey", "init+update", s, read_all(x.into_seed_stream(), &reads), 16);
             ev("fixedkey", "seed_stream", s, read_all(XofFixedKeyAes128::seed_stream(s, &dref, &bref), &reads), 16);
+            if reads.iter().any(|r| *r == 4 || *r == 8) { ev("fixedkey", "seed_stream/words", s, read_all_words(XofFixedKeyAes128::seed_stream(s, &dref, &bref), &reads), 16); }
             ev("fixedkey", "key.with_seed", s, read_all(XofFixedKeyAes128Key::new(&dref, &binder).with_seed(s), &reads), 16);
             let mut x = XofFixedKeyAes128::init(s, &dref);
             for b in &bref { x.update(b); }
